@@ -26,6 +26,7 @@ func propC09(c *Ctx) propInfo {
 	c.floor("E12.generator-id-format", 3)
 	c.floor("E6.generator-templates", 20)
 	c.generatorIsolation("tl/parser", "tlb/parser", "abi/parser", "utils")
+	c.generatedReceivers("E12.generator-receivers")
 	return propInfo{
 		explanation: "Static structural clauses of C09 (DESIGN.md §4 C09): (1) determinism - every range over a map in the schema compilers either only accumulates into another map / set, selects an element by key equality, feeds text/template (which iterates in key order) or collects into a slice that is sorted before use; none emits output in map order; (2) every place where the TL compiler formats a 32-bit constructor id into generated source pads it to 8 hex digits (the run-time tag codec requires exactly 4 bytes); (3) the integer / bits / VarUInteger templates of the TL-B compiler, instantiated by the checker with placeholder values and parsed as Go, satisfy the same width / primitive / JSON-parser rules as the checked-in generated file (E6). The general statement 'for all schemas the generated code implements the schema' is a property of a program's output over all inputs and is NOT decided; see DESIGN.md.",
 		assumptions: []string{"text/template iterates maps in sorted key order (documented)"},
